@@ -22,7 +22,7 @@ structure ClassG (t : Table) (cs : List Char) (re : Bool) : Prop where
   /-- levels: binary of either associativity, prefix, or postfix; no parse actions -/
   kinds : ∀ lv ∈ t.levels, lv.acts = [] ∧
     ((lv.arity = 2 ∧ lv.right = true) ∨ (lv.arity = 1 ∧ lv.right = true) ∨ (lv.arity = 2 ∧ lv.right = false) ∨
-      (lv.arity = 1 ∧ lv.right = false) ∨ (lv.arity = 3 ∧ lv.right = true))
+      (lv.arity = 1 ∧ lv.right = false) ∨ (lv.arity = 3 ∧ lv.right = true) ∨ (lv.arity = 3 ∧ lv.right = false))
   lparOk : t.lpar ≠ [] ∧ ∀ c, t.lpar.head? = some c → c ∉ t.white ∧ c ∉ cs
   rparOk : t.rpar ≠ [] ∧ ∀ c, t.rpar.head? = some c → c ∉ t.white ∧ c ∉ cs
   opOk : ∀ lv ∈ t.levels, lv.op1 ≠ [] ∧ ∀ c, lv.op1.head? = some c → c ∉ t.white ∧ c ∉ cs
@@ -59,9 +59,9 @@ def WFG (t : Table) (cs : List Char) : Ex → Prop
       ((lv.right = true ∧ a.lvl < k ∧ b.lvl ≤ k) ∨ (lv.right = false ∧ a.lvl ≤ k ∧ b.lvl < k))
   | .post k e wo => ∃ lv, 1 ≤ k ∧ t.levels[k - 1]? = some lv ∧ lv.arity = 1 ∧ lv.right = false ∧
       White t.white wo ∧ WFG t cs e ∧ e.lvl ≤ k
-  | .tern k a w1 b w2 c => ∃ lv, 1 ≤ k ∧ t.levels[k - 1]? = some lv ∧ lv.arity = 3 ∧ lv.right = true ∧
+  | .tern k a w1 b w2 c => ∃ lv, 1 ≤ k ∧ t.levels[k - 1]? = some lv ∧ lv.arity = 3 ∧
       White t.white w1 ∧ White t.white w2 ∧ WFG t cs a ∧ WFG t cs b ∧ WFG t cs c ∧
-      a.lvl < k ∧ b.lvl ≤ k ∧ c.lvl ≤ k
+      ((lv.right = true ∧ a.lvl < k ∧ b.lvl ≤ k ∧ c.lvl ≤ k) ∨ (lv.right = false ∧ a.lvl ≤ k ∧ b.lvl < k ∧ c.lvl < k))
 
 /-- `WFL` trees are `WFG` trees -/
 theorem WFL.toWFG {t : Table} {cs : List Char} : ∀ e, WFL t cs e → WFG t cs e := by
@@ -113,7 +113,7 @@ theorem lead_white : ∀ e, WFG t cs e → White t.white (lead e) := by
   | pre k wo e ih => intro h; obtain ⟨lv, _, _, _, _, hw, _⟩ := h; exact hw
   | post k e wo ih => intro h; obtain ⟨lv, _, _, _, _, _, he, _⟩ := h; exact ih he
   | bin k a wo b iha ihb => intro h; obtain ⟨lv, _, _, _, _, ha, _⟩ := h; exact iha ha
-  | tern k a w1 b w2 c iha ihb ihc => intro h; obtain ⟨lv, _, _, _, _, _, _, ha, _⟩ := h; exact iha ha
+  | tern k a w1 b w2 c iha ihb ihc => intro h; obtain ⟨lv, _, _, _, _, _, ha, _⟩ := h; exact iha ha
 
 /-- the first character of the spelling proper is neither a blank nor an operand character, unless it is an atom -/
 theorem renderB_head : ∀ e, WFG t cs e → ∃ c r, renderB t e = c :: r ∧ c ∉ t.white := by
@@ -144,7 +144,7 @@ theorem renderB_head : ∀ e, WFG t cs e → ∃ c r, renderB t e = c :: r ∧ c
     exact ⟨c, r ++ wo ++ opOf t k ++ render t b, by simp [renderB, hr], hc⟩
   | tern k a w1 b w2 c iha ihb ihc =>
     intro h
-    obtain ⟨lv, _, _, _, _, _, _, ha, _⟩ := h
+    obtain ⟨lv, _, _, _, _, _, ha, _⟩ := h
     obtain ⟨c0, r, hr, hc⟩ := iha ha
     exact ⟨c0, r ++ w1 ++ opOf t k ++ render t b ++ w2 ++ op2Of t k ++ render t c, by simp [renderB, hr], hc⟩
 
@@ -187,7 +187,8 @@ theorem op_not_prefix {k' : Nat} {lv' : Level} (hk' : 1 ≤ k') (hlv' : t.levels
     exact iha ha (by omega) _
   | tern k a w1 b w2 c iha ihb ihc =>
     intro h hl suf
-    obtain ⟨lv, hk, hlv, _, _, _, _, ha, _, _, hla, _⟩ := h
+    obtain ⟨lv, hk, hlv, _, _, _, ha, _, _, hcase⟩ := h
+    have hla : a.lvl ≤ k := by obtain ⟨_, h, _⟩ | ⟨_, h, _⟩ := hcase <;> omega
     simp only [Ex.lvl] at hl
     simp only [renderB, List.append_assoc]
     exact iha ha (by omega) _
@@ -271,7 +272,7 @@ theorem goal_lift {e : Ex} {K : Nat} {lv : Level} (hK : 1 ≤ K) (hlv : t.levels
   have hsub := fun a' c' loc' h' => ih q suf hs hq (hf.mono (by omega)) a' c' loc' h'
   -- the lookahead body fails
   have hbody : ∃ l, Holds t s (E K + 5) q false true (.fail .parse l) := by
-    rcases hkind.2 with ⟨ha, hr⟩ | ⟨ha, hr⟩ | ⟨ha, hr⟩ | ⟨ha, hr⟩ | ⟨ha, hr⟩
+    rcases hkind.2 with ⟨ha, hr⟩ | ⟨ha, hr⟩ | ⟨ha, hr⟩ | ⟨ha, hr⟩ | ⟨ha, hr⟩ | ⟨ha, hr⟩
     · have g5 : (infixGrammar t)[E K + 5]? = some (mkNode t.white (.and [E (K - 1), E K + 7, E K]) true true) := by
         rw [gram_level t hK hlv (by omega)]; simp [levelNodes, ha, hr]
       have hopf : ¬ lv.op1 <+: s.drop (skipWhite t.white s (q + (renderB t e).length)) :=
@@ -300,6 +301,13 @@ theorem goal_lift {e : Ex} {K : Nat} {lv : Level} (hK : 1 ≤ K) (hlv : t.levels
       refine ⟨l, H_and t s (hfbF 5 (by omega) (by omega)) g5 (hns hT) (hsub false false _ ?_) (HRest.cons_fail t s _ hl) (Or.inr ⟨l, rfl⟩)⟩
       rw [preOf_false, preOf_true, hq]
     · have g5 : (infixGrammar t)[E K + 5]? = some (mkNode t.white (.and [E (K - 1), E K + 7, E K, E K + 8, E K]) true true) := by
+        rw [gram_level t hK hlv (by omega)]; simp [levelNodes, ha, hr]
+      have hopf : ¬ lv.op1 <+: s.drop (skipWhite t.white s (q + (renderB t e).length)) :=
+        hf.2 K lv hK (Nat.le_refl _) hlv (by simp [ha])
+      obtain ⟨l, hl⟩ := H_lit_fail t s (a := false) (c := true) (hfbF 7 (by omega) (by omega)) g7 (preOf_true _ _ _) hop.1 hopf
+      refine ⟨l, H_and t s (hfbF 5 (by omega) (by omega)) g5 (hns hT) (hsub false false _ ?_) (HRest.cons_fail t s _ hl) (Or.inr ⟨l, rfl⟩)⟩
+      rw [preOf_false, preOf_true, hq]
+    · have g5 : (infixGrammar t)[E K + 5]? = some (mkNode t.white (.and [E (K - 1), E K + 7, E (K - 1), E K + 8, E (K - 1)]) true true) := by
         rw [gram_level t hK hlv (by omega)]; simp [levelNodes, ha, hr]
       have hopf : ¬ lv.op1 <+: s.drop (skipWhite t.white s (q + (renderB t e).length)) :=
         hf.2 K lv hK (Nat.le_refl _) hlv (by simp [ha])
@@ -1068,10 +1076,12 @@ include hT
 /-- a RIGHT-associative ternary application `a op1 b op2 c` at its own level:
     `_FB(lastExpr + op1 + thisExpr + op2 + thisExpr) + Group(lastExpr + op1 + thisExpr + op2 + thisExpr)` -/
 theorem goal_ternR {k : Nat} {w1 w2 : List Char} {ea eb ec : Ex} (h : WFG t cs (.tern k ea w1 eb w2 ec))
+    {lv : Level} (hlv : t.levels[k - 1]? = some lv) (hr : lv.right = true)
     (iha : GoalG t cs s ea (k - 1)) (ihb : GoalG t cs s eb k) (ihc : GoalG t cs s ec k) :
     GoalG t cs s (.tern k ea w1 eb w2 ec) k := by
   intro q suf hs hq hf a c loc hloc
-  obtain ⟨lv, hK, hlv, ha, hr, hw1, hw2, hwa, hwb, hwc, _, _, _⟩ := h
+  obtain ⟨lv', hK, hlv', ha, hw1, hw2, hwa, hwb, hwc, _⟩ := h
+  obtain rfl : lv = lv' := by rw [hlv] at hlv'; exact Option.some.inj hlv'
   have hKn : k ≤ t.levels.length := by
     have := (List.getElem?_eq_some_iff.mp hlv).1; omega
   have hkind := hT.kinds lv (lv_mem hlv)
@@ -1188,6 +1198,321 @@ theorem goal_ternR {k : Nat} {w1 w2 : List Char} {ea eb ec : Ex} (h : WFG t cs (
   simpa [nest, rightOf, hlv, hr, opOf_eq hlv, op2Of_eq hlv] using this
 
 end ternR
+
+/-! ### left-associative ternary chains -/
+
+/-- one turn of a ternary chain: blanks, middle operand, blanks, last operand -/
+abbrev TItem := List Char × Ex × List Char × Ex
+
+def tHead (k : Nat) : Ex → Ex
+  | .tern k' a w1 b w2 c => if k' = k then tHead k a else .tern k' a w1 b w2 c
+  | e => e
+
+def tRest (k : Nat) : Ex → List TItem
+  | .tern k' a w1 b w2 c => if k' = k then tRest k a ++ [(w1, b, w2, c)] else []
+  | _ => []
+
+def tR (t : Table) (op1 op2 : List Char) : List TItem → List Char
+  | [] => []
+  | x :: r => x.1 ++ (op1 ++ (lead x.2.1 ++ (renderB t x.2.1 ++ (x.2.2.1 ++ (op2 ++ (lead x.2.2.2 ++
+      (renderB t x.2.2.2 ++ tR t op1 op2 r)))))))
+
+def tN (t : Table) (op1 op2 : List Char) : List TItem → List Tok
+  | [] => []
+  | x :: r => .s op1 :: nest t x.2.1 :: .s op2 :: nest t x.2.2.2 :: tN t op1 op2 r
+
+theorem tR_append (t : Table) (op1 op2 : List Char) (r1 r2 : List TItem) :
+    tR t op1 op2 (r1 ++ r2) = tR t op1 op2 r1 ++ tR t op1 op2 r2 := by
+  induction r1 with
+  | nil => rfl
+  | cons x r ih => simp [tR, ih, List.append_assoc]
+
+theorem tN_append (t : Table) (op1 op2 : List Char) (r1 r2 : List TItem) :
+    tN t op1 op2 (r1 ++ r2) = tN t op1 op2 r1 ++ tN t op1 op2 r2 := by
+  induction r1 with
+  | nil => rfl
+  | cons x r ih => simp [tN, ih]
+
+theorem t_low {k : Nat} : ∀ e : Ex, e.lvl < k → tHead k e = e ∧ tRest k e = [] := by
+  intro e h
+  cases e with
+  | tern k' a w1 b w2 c =>
+    simp only [Ex.lvl] at h
+    have : k' ≠ k := by omega
+    simp [tHead, tRest, this]
+  | _ => simp [tHead, tRest]
+
+theorem t_renderB (t : Table) (k : Nat) : ∀ e,
+    renderB t e = renderB t (tHead k e) ++ tR t (opOf t k) (op2Of t k) (tRest k e) := by
+  intro e
+  induction e with
+  | tern k' a w1 b w2 c iha ihb ihc =>
+    by_cases h : k' = k
+    · subst h
+      simp only [tHead, tRest, if_true, renderB, tR_append, tR]
+      rw [iha]
+      simp [render_eq, List.append_assoc]
+    · simp [tHead, tRest, h, tR]
+  | _ => simp [tHead, tRest, tR]
+
+/-- the documented nesting of a left-associative ternary chain: one flat group -/
+theorem t_nest (t : Table) (k : Nat) (hr : rightOf t k = false) : ∀ (a : Ex) (w1 : List Char) (b : Ex) (w2 : List Char) (c : Ex),
+    nest t (.tern k a w1 b w2 c)
+      = .g (nest t (tHead k a) :: tN t (opOf t k) (op2Of t k) (tRest k a ++ [(w1, b, w2, c)])) := by
+  intro a
+  induction a with
+  | tern k' a' v1 b' v2 c' iha ihb ihc =>
+    intro w1 b w2 c
+    by_cases h : k' = k
+    · subst h
+      conv => lhs; unfold nest
+      simp only [hr, Bool.false_eq_true, if_false]
+      rw [iha v1 b' v2 c']
+      simp [tHead, tRest, tN_append, tN]
+    · conv => lhs; unfold nest
+      simp only [hr, Bool.false_eq_true, if_false]
+      simp only [tHead, tRest, h, if_false, List.nil_append, tN]
+      split
+      · simp_all
+      · rfl
+  | _ => intro w1 b w2 c; simp [nest, hr, tHead, tRest, tN]
+
+def TChainOK (t : Table) (cs s : List Char) (k : Nat) (h : Ex) (rest : List TItem) : Prop :=
+  OperandOK t cs s k h ∧ ∀ x ∈ rest, White t.white x.1 ∧ OperandOK t cs s k x.2.1 ∧
+    White t.white x.2.2.1 ∧ OperandOK t cs s k x.2.2.2
+
+section ternL
+variable {t : Table} {cs : List Char} {re : Bool} (hT : ClassG t cs re) (s : List Char)
+include hT
+
+theorem t_follow {k : Nat} {lv : Level} (hK : 1 ≤ k) (hlv : t.levels[k - 1]? = some lv)
+    {p : Nat} {rest : List TItem} {suf : List Char}
+    (hs : s.drop p = tR t lv.op1 lv.op2 rest ++ suf) (hw : ∀ x ∈ rest, White t.white x.1)
+    (hf : FollowG t cs s k (p + (tR t lv.op1 lv.op2 rest).length)) : FollowG t cs s (k - 1) p := by
+  cases rest with
+  | nil => simpa [tR] using hf.mono (k' := k - 1) (by omega)
+  | cons x r =>
+    have hop := hT.opOk lv (lv_mem hlv)
+    obtain ⟨oc, or', hor⟩ := List.exists_cons_of_ne_nil hop.1
+    have hoc := hop.2 oc (by simp [hor])
+    have hwx := hw x (by simp)
+    obtain ⟨rest', hs0⟩ : ∃ rest', s.drop p = x.1 ++ (lv.op1 ++ rest') := ⟨_, by rw [hs]; simp [tR, List.append_assoc]; rfl⟩
+    have hpa : skipWhite t.white s p = p + x.1.length :=
+      skipWhite_eq hs0 hwx (by intro d hd; rw [hor] at hd; simp at hd; subst hd; exact hoc.1)
+    constructor
+    · exact next_not_cs hs0 hor hoc.2 (white_not_cs hT hwx)
+    · intro j lvj hj1 hjk hlvj _
+      rw [hpa, drop_add hs0]
+      exact not_prefix_append _ (hT.opsInc _ _ _ _ hlvj hlv (by omega)) (hT.opsInc _ _ _ _ hlv hlvj (by omega))
+
+/-- a chain `h op1 b1 op2 c1 op1 b2 op2 c2 …` of a LEFT-associative ternary level `k` at that level: the `_FB`
+    lookahead succeeds on `h op1 b1 op2 c1`, then `Group(lastExpr + (op1 + lastExpr + op2 + lastExpr)[1, ...])`
+    collects the whole chain into ONE flat group -/
+theorem tern_parse {k : Nat} {lv : Level} (hK : 1 ≤ k) (hlv : t.levels[k - 1]? = some lv)
+    (ha : lv.arity = 3) (hr : lv.right = false) {h : Ex} {x1 : TItem} {r : List TItem}
+    (hch : TChainOK t cs s k h (x1 :: r)) :
+    ∀ q suf, s.drop q = renderB t h ++ (tR t lv.op1 lv.op2 (x1 :: r) ++ suf) → skipWhite t.white s q = q →
+      FollowG t cs s k (q + (renderB t h).length + (tR t lv.op1 lv.op2 (x1 :: r)).length) →
+      ∀ a c loc, preOf t.white s c true loc = q →
+        Holds t s (E k) loc a c (.ok (q + (renderB t h).length + (tR t lv.op1 lv.op2 (x1 :: r)).length)
+          [.g (nest t h :: tN t lv.op1 lv.op2 (x1 :: r))]) := by
+  intro q suf hs hq hf a c loc hloc
+  have hKn : k ≤ t.levels.length := by
+    have := (List.getElem?_eq_some_iff.mp hlv).1; omega
+  have hkind := hT.kinds lv (lv_mem hlv)
+  have hop := hT.opOk lv (lv_mem hlv)
+  have hop2 := hT.op2Ok lv (lv_mem hlv) ha
+  obtain ⟨oc, or', hor⟩ := List.exists_cons_of_ne_nil hop.1
+  have hoc := hop.2 oc (by simp [hor])
+  obtain ⟨pc, pr', hpr⟩ := List.exists_cons_of_ne_nil hop2.1
+  have hpc := hop2.2 pc (by simp [hpr])
+  have hfbF : ∀ j, j < 14 → j ≠ 3 → (fbIds t).elem (E k + j) = false := by
+    intro j hj h3; rw [fb_level t hK hKn hj]; simp [h3]
+  have hfbT : (fbIds t).elem (E k + 3) = true := by rw [fb_level t hK hKn (by omega)]; simp
+  have g0 : (infixGrammar t)[E k + 0]? = some (mkNode t.white (.forward (some (E k + 1))) true true) := by
+    rw [gram_level t hK hlv (by omega)]; simp [levelNodes]
+  have g1 : (infixGrammar t)[E k + 1]? = some (mkNode t.white (.matchFirst ((E k + 2) :: tailOf t k)) true false) := by
+    rw [gram_level t hK hlv (by omega)]; simp [levelNodes]
+  have g2 : (infixGrammar t)[E k + 2]? = some (mkNode t.white (.and [E k + 3, E k + 4]) true true) := by
+    rw [gram_level t hK hlv (by omega)]; simp [levelNodes, hkind.1, mkNode]
+  have g3 : (infixGrammar t)[E k + 3]? = some (mkNode t.white (.followedBy (E k + 5)) true true) := by
+    rw [gram_level t hK hlv (by omega)]; simp [levelNodes]
+  have g4 : (infixGrammar t)[E k + 4]? = some (mkNode t.white (.group (E k + 6)) true true) := by
+    rw [gram_level t hK hlv (by omega)]; simp [levelNodes]
+  have g5 : (infixGrammar t)[E k + 5]? = some (mkNode t.white (.and [E (k - 1), E k + 7, E (k - 1), E k + 8, E (k - 1)]) true true) := by
+    rw [gram_level t hK hlv (by omega)]; simp [levelNodes, ha, hr]
+  have g6 : (infixGrammar t)[E k + 6]? = some (mkNode t.white (.and [E (k - 1), E k + 9]) true true) := by
+    rw [gram_level t hK hlv (by omega)]; simp [levelNodes, ha, hr]
+  have g7 : (infixGrammar t)[E k + 7]? = some (mkNode t.white (litKind lv.op1) false true) := by
+    rw [gram_level t hK hlv (by omega)]; simp [levelNodes]
+  have g8 : (infixGrammar t)[E k + 8]? = some (mkNode t.white (litKind lv.op2) false true) := by
+    rw [gram_level t hK hlv (by omega)]; simp [levelNodes, ha, hr]
+  have g9 : (infixGrammar t)[E k + 9]? = some (mkNode t.white (.many (E k + 10) none true) true true) := by
+    rw [gram_level t hK hlv (by omega)]; simp [levelNodes, ha, hr]
+  have g10 : (infixGrammar t)[E k + 10]? = some (mkNode t.white (.and [E k + 11, E (k - 1), E k + 12, E (k - 1)]) true true) := by
+    rw [gram_level t hK hlv (by omega)]; simp [levelNodes, ha, hr]
+  have g11 : (infixGrammar t)[E k + 11]? = some (mkNode t.white (litKind lv.op1) false true) := by
+    rw [gram_level t hK hlv (by omega)]; simp [levelNodes, ha]
+  have g12 : (infixGrammar t)[E k + 12]? = some (mkNode t.white (litKind lv.op2) false true) := by
+    rw [gram_level t hK hlv (by omega)]; simp [levelNodes, ha]
+  -- one turn `op1 b op2 c`, wherever it stands in the chain
+  have piece : ∀ (p : Nat) (x : TItem) (suf' : List Char),
+      s.drop p = x.1 ++ (lv.op1 ++ (lead x.2.1 ++ (renderB t x.2.1 ++ (x.2.2.1 ++ (lv.op2 ++ (lead x.2.2.2 ++
+        (renderB t x.2.2.2 ++ suf'))))))) →
+      White t.white x.1 → OperandOK t cs s k x.2.1 → White t.white x.2.2.1 → OperandOK t cs s k x.2.2.2 →
+      FollowG t cs s (k - 1) (p + x.1.length + lv.op1.length + (lead x.2.1).length + (renderB t x.2.1).length
+        + x.2.2.1.length + lv.op2.length + (lead x.2.2.2).length + (renderB t x.2.2.2).length) →
+      (∀ id, id = 7 ∨ id = 11 → ∀ a' c' loc', preOf t.white s c' true loc' = p + x.1.length →
+        Holds t s (E k + id) loc' a' c' (.ok (p + x.1.length + lv.op1.length) [.s lv.op1])) ∧
+      (∀ a', Holds t s (E (k - 1)) (p + x.1.length + lv.op1.length) a' true
+        (.ok (p + x.1.length + lv.op1.length + (lead x.2.1).length + (renderB t x.2.1).length) [nest t x.2.1])) ∧
+      (∀ id, id = 8 ∨ id = 12 → ∀ a', Holds t s (E k + id)
+        (p + x.1.length + lv.op1.length + (lead x.2.1).length + (renderB t x.2.1).length) a' true
+        (.ok (p + x.1.length + lv.op1.length + (lead x.2.1).length + (renderB t x.2.1).length
+          + x.2.2.1.length + lv.op2.length) [.s lv.op2])) ∧
+      (∀ a', Holds t s (E (k - 1)) (p + x.1.length + lv.op1.length + (lead x.2.1).length + (renderB t x.2.1).length
+          + x.2.2.1.length + lv.op2.length) a' true
+        (.ok (p + x.1.length + lv.op1.length + (lead x.2.1).length + (renderB t x.2.1).length
+          + x.2.2.1.length + lv.op2.length + (lead x.2.2.2).length + (renderB t x.2.2.2).length) [nest t x.2.2.2])) ∧
+      skipWhite t.white s p = p + x.1.length ∧
+      skipWhite t.white s (p + x.1.length) = p + x.1.length ∧
+      p + x.1.length + lv.op1.length + (lead x.2.1).length + (renderB t x.2.1).length
+          + x.2.2.1.length + lv.op2.length + (lead x.2.2.2).length + (renderB t x.2.2.2).length ≤ s.length := by
+    intro p x suf' hs0 hw1 hb hw2 hc hfx
+    have h1 := drop_add hs0
+    have h2 := drop_add h1
+    have h3 := drop_add h2
+    have h4 := drop_add h3
+    have h5 := drop_add h4
+    have h6 := drop_add h5
+    have h7 := drop_add h6
+    have hpa : skipWhite t.white s p = p + x.1.length :=
+      skipWhite_eq hs0 hw1 (by intro d hd; rw [hor] at hd; simp at hd; subst hd; exact hoc.1)
+    have hqo : skipWhite t.white s (p + x.1.length) = p + x.1.length := by
+      have := skipWhite_eq (W := t.white) (ws := []) (by simpa using h1)
+        (by simp) (by intro d hd; rw [hor] at hd; simp at hd; subst hd; exact hoc.1)
+      simpa using this
+    have hqb1 := skip_lead hT s hb.1 h2
+    have hqb2 := skip_at_body hT s hb.1 h3
+    have hpb := skipWhite_eq h4 hw2 (by intro d hd; rw [hpr] at hd; simp at hd; subst hd; exact hpc.1)
+    have hqc1 := skip_lead hT s hc.1 h6
+    have hqc2 := skip_at_body hT s hc.1 h7
+    have hfolB : FollowG t cs s (k - 1)
+        (p + x.1.length + lv.op1.length + (lead x.2.1).length + (renderB t x.2.1).length) := by
+      constructor
+      · exact next_not_cs h4 hpr hpc.2 (white_not_cs hT hw2)
+      · intro j lvj hj1 hjk hlvj _
+        rw [hpb, h5]
+        have := hT.op2Inc lv (lv_mem hlv) lvj (lv_mem hlvj) ha
+        exact not_prefix_append _ this.1 this.2
+    refine ⟨?_, ?_, ?_, ?_, hpa, hqo, ?_⟩
+    · intro id hid a' c' loc' hl'
+      rcases hid with rfl | rfl
+      · exact H_lit_ok t s (hfbF 7 (by omega) (by omega)) g7 hl' hop.1 h1
+      · exact H_lit_ok t s (hfbF 11 (by omega) (by omega)) g11 hl' hop.1 h1
+    · intro a'
+      exact hb.2.2 _ _ h3 hqb2 hfolB a' true _ (by rw [preOf_true, hqb1])
+    · intro id hid a'
+      rcases hid with rfl | rfl
+      · exact H_lit_ok t s (hfbF 8 (by omega) (by omega)) g8 (by rw [preOf_true, hpb]) hop2.1 h5
+      · exact H_lit_ok t s (hfbF 12 (by omega) (by omega)) g12 (by rw [preOf_true, hpb]) hop2.1 h5
+    · intro a'
+      exact hc.2.2 _ _ h7 hqc2 hfx a' true _ (by rw [preOf_true, hqc1])
+    · obtain ⟨c0, r0, hr0, _⟩ := renderB_head hT x.2.2.2 hc.1
+      have := len_le_of_drop h7 (by rw [hr0]; simp)
+      omega
+  -- the loop over the rest of the chain
+  have loop : ∀ (r : List TItem) (p : Nat) (acc : List Tok) (suf' : List Char) (a' : Bool),
+      s.drop p = tR t lv.op1 lv.op2 r ++ suf' →
+      (∀ x ∈ r, White t.white x.1 ∧ OperandOK t cs s k x.2.1 ∧ White t.white x.2.2.1 ∧ OperandOK t cs s k x.2.2.2) →
+      FollowG t cs s k (p + (tR t lv.op1 lv.op2 r).length) →
+      HLoop t s (mkNode t.white (.many (E k + 10) none true) true true) a' (E k + 10) p acc
+        (.ok (p + (tR t lv.op1 lv.op2 r).length) (acc ++ tN t lv.op1 lv.op2 r)) := by
+    intro r
+    induction r with
+    | nil =>
+      intro p acc suf' a' hsr _ hfr
+      simp only [tR, tN, List.length_nil, Nat.add_zero, List.append_nil] at hfr ⊢
+      obtain ⟨lf, hfail⟩ := H_lit_fail t s (a := a') (c := false) (loc := skipWhite t.white s p)
+        (hfbF 11 (by omega) (by omega)) g11 (preOf_false _ _ _) hop.1 (hfr.2 k lv hK (Nat.le_refl _) hlv (by simp [ha]))
+      exact HLoop.stop t s _ (by simp [mkNode])
+        (H_and_fail0 t s (hfbF 10 (by omega) (by omega)) g10 (hns hT) (by rw [preOf_true]; exact hfail))
+    | cons x r ih =>
+      intro p acc suf' a' hsr hxr hfr
+      have hs0 : s.drop p = x.1 ++ (lv.op1 ++ (lead x.2.1 ++ (renderB t x.2.1 ++ (x.2.2.1 ++ (lv.op2 ++ (lead x.2.2.2 ++
+          (renderB t x.2.2.2 ++ (tR t lv.op1 lv.op2 r ++ suf')))))))) := by
+        rw [hsr]; simp [tR, List.append_assoc]
+      have h8 := drop_add (drop_add (drop_add (drop_add (drop_add (drop_add (drop_add (drop_add hs0)))))))
+      have hlen : p + (tR t lv.op1 lv.op2 (x :: r)).length
+          = p + x.1.length + lv.op1.length + (lead x.2.1).length + (renderB t x.2.1).length
+            + x.2.2.1.length + lv.op2.length + (lead x.2.2.2).length + (renderB t x.2.2.2).length
+            + (tR t lv.op1 lv.op2 r).length := by
+        simp [tR, List.length_append]; omega
+      rw [hlen] at hfr ⊢
+      have hxr' : ∀ y ∈ r, White t.white y.1 ∧ OperandOK t cs s k y.2.1 ∧ White t.white y.2.2.1 ∧ OperandOK t cs s k y.2.2.2 :=
+        fun y hy => hxr y (by simp [hy])
+      have hfx := t_follow hT s hK hlv h8 (fun y hy => (hxr' y hy).1) hfr
+      have hx := hxr x (by simp)
+      obtain ⟨hOp1, hB, hOp2, hC, hpa, _, hle⟩ := piece p x _ hs0 hx.1 hx.2.1 hx.2.2.1 hx.2.2.2 hfx
+      have ht := H_and t s (a := a') (c := true) (loc := p) (hfbF 10 (by omega) (by omega)) g10 (hns hT)
+        (hOp1 11 (Or.inr rfl) a' false _ (by rw [preOf_false, preOf_true, hpa]))
+        (HRest.cons_ok t s (hB a') (HRest.cons_ok t s (hOp2 12 (Or.inr rfl) a') (HRest.cons_ok t s (hC a') (HRest.nil t s _ _ _))))
+        (Or.inl ⟨_, _, rfl⟩)
+      have hpos : 0 < lv.op1.length := List.length_pos_iff.mpr hop.1
+      have := ih _ (acc ++ ([.s lv.op1] ++ [nest t x.2.1] ++ [.s lv.op2] ++ [nest t x.2.2.2])) suf' a' h8 hxr' hfr
+      have e : acc ++ ([Tok.s lv.op1] ++ [nest t x.2.1] ++ [Tok.s lv.op2] ++ [nest t x.2.2.2]) ++ tN t lv.op1 lv.op2 r
+          = acc ++ tN t lv.op1 lv.op2 (x :: r) := by
+        simp [tN]
+      rw [e] at this
+      exact HLoop.step t s (by simp [mkNode]) ht (by omega) hle this
+  -- the chain
+  have hs0 : s.drop q = renderB t h ++ (x1.1 ++ (lv.op1 ++ (lead x1.2.1 ++ (renderB t x1.2.1 ++ (x1.2.2.1 ++ (lv.op2 ++
+      (lead x1.2.2.2 ++ (renderB t x1.2.2.2 ++ (tR t lv.op1 lv.op2 r ++ suf))))))))) := by
+    rw [hs]; simp [tR, List.append_assoc]
+  have h1 := drop_add hs0
+  have h9 := drop_add (drop_add (drop_add (drop_add (drop_add (drop_add (drop_add (drop_add h1)))))))
+  have hlen : q + (renderB t h).length + (tR t lv.op1 lv.op2 (x1 :: r)).length
+      = q + (renderB t h).length + x1.1.length + lv.op1.length + (lead x1.2.1).length + (renderB t x1.2.1).length
+        + x1.2.2.1.length + lv.op2.length + (lead x1.2.2.2).length + (renderB t x1.2.2.2).length
+        + (tR t lv.op1 lv.op2 r).length := by
+    simp [tR, List.length_append]; omega
+  have hx1 := hch.2 x1 (by simp)
+  have hxr : ∀ y ∈ r, White t.white y.1 ∧ OperandOK t cs s k y.2.1 ∧ White t.white y.2.2.1 ∧ OperandOK t cs s k y.2.2.2 :=
+    fun y hy => hch.2 y (by simp [hy])
+  have hfolH : FollowG t cs s (k - 1) (q + (renderB t h).length) :=
+    t_follow hT s hK hlv (rest := x1 :: r) (suf := suf) (by rw [h1]; simp [tR, List.append_assoc])
+      (fun y hy => (hch.2 y hy).1) hf
+  rw [hlen] at hf ⊢
+  have hfol1 := t_follow hT s hK hlv h9 (fun y hy => (hxr y hy).1) hf
+  obtain ⟨hOp1, hB, hOp2, hC, hpa, hqo, hle⟩ := piece _ x1 _ h1 hx1.1 hx1.2.1 hx1.2.2.1 hx1.2.2.2 hfol1
+  have hA : ∀ a', Holds t s (E (k - 1)) q a' false (.ok (q + (renderB t h).length) [nest t h]) :=
+    fun a' => hch.1.2.2 q _ hs0 hq hfolH a' false q (preOf_false _ _ _)
+  have hbody := H_and t s (a := false) (c := true) (loc := q) (hfbF 5 (by omega) (by omega)) g5 (hns hT)
+      (by rw [preOf_true, hq]; exact hA false)
+      (HRest.cons_ok t s (hOp1 7 (Or.inl rfl) false true _ (by rw [preOf_true, hpa])) (HRest.cons_ok t s (hB false)
+        (HRest.cons_ok t s (hOp2 8 (Or.inl rfl) false) (HRest.cons_ok t s (hC false) (HRest.nil t s _ _ _)))))
+      (Or.inl ⟨_, _, rfl⟩)
+  have hfb : Holds t s (E k + 3) q a false (.ok q []) := by
+    have := H_fb_ok t s (a := a) (c := false) (loc := q) hfbT g3 (by rw [preOf_false]; exact hbody)
+    simpa [preOf_false] using this
+  have hturn := H_and t s (a := a) (c := true) (loc := q + (renderB t h).length + x1.1.length)
+      (hfbF 10 (by omega) (by omega)) g10 (hns hT)
+      (hOp1 11 (Or.inr rfl) a false _ (by rw [preOf_false, preOf_true, hqo]))
+      (HRest.cons_ok t s (hB a) (HRest.cons_ok t s (hOp2 12 (Or.inr rfl) a) (HRest.cons_ok t s (hC a) (HRest.nil t s _ _ _))))
+      (Or.inl ⟨_, _, rfl⟩)
+  have hloop := loop r _ ([.s lv.op1] ++ [nest t x1.2.1] ++ [.s lv.op2] ++ [nest t x1.2.2.2]) suf a h9 hxr hf
+  have hmany : Holds t s (E k + 9) (q + (renderB t h).length) a true _ :=
+    H_many t s (hfbF 9 (by omega) (by omega)) g9 (by rw [preOf_true, hpa]; exact hturn) hle hloop
+  have hgb := H_and t s (a := a) (c := false) (loc := q) (hfbF 6 (by omega) (by omega)) g6 (hns hT)
+      (by rw [preOf_false]; exact hA a) (HRest.cons_ok t s hmany (HRest.nil t s _ _ _)) (Or.inl ⟨_, _, rfl⟩)
+  have hgrp := H_group_ok t s (a := a) (c := true) (loc := q) (hfbF 4 (by omega) (by omega)) g4 (by rw [preOf_true, hq]; exact hgb)
+  have hm := H_and t s (a := a) (c := true) (loc := q) (hfbF 2 (by omega) (by omega)) g2 (hns hT) (by rw [preOf_true, hq]; exact hfb)
+      (HRest.cons_ok t s hgrp (HRest.nil t s _ _ _)) (Or.inl ⟨_, _, rfl⟩)
+  have hmf := H_mf_ok t s (a := a) (c := false) (loc := q) (hfbF 1 (by omega) (by omega)) g1 (HMf.head t s _ hm)
+  have := H_forward_ok t s (a := a) (c := c) (loc := loc) (hfbF 0 (by omega) (by omega)) g0 (by rw [hloc]; exact hmf)
+  simpa [tN] using this
+
+end ternL
 
 end Gen
 end PP.Infix
